@@ -25,6 +25,28 @@ XEncodeValueCE == On("encode_value_check_escaped") /\ DoEncodeValueCE
 XParseHost     == On("parse_host") /\ DoParseHost
 XNext == XDecode \/ XEncode \/ XEncodeValue \/ XEncodeCE \/ XEncodeValueCE \/ XParseHost
 
+(* escape-dense inputs: every sequence of <= n TOKENS.  The tokens are the escapes of the octets of one
+   2-octet (C3 A9), one 3-octet (E2 82 AC) and one 4-octet character (F0 9F 98 80) - so that every way of
+   cutting a character, every truncation and every wrong continuation occurs -, plus 'a', '+', the
+   malformed "%4" (an escape again when 'a' follows) and a raw U+00E9.  These instances carry the laws for
+   long inputs (DecodeChunkLaw, CheckEscapedConcat, EncodedPiecesAreChunks). *)
+TokPool == { <<37, 67, 51>>, <<37, 65, 57>>,                                   \* %C3 %A9
+             <<37, 69, 50>>, <<37, 56, 50>>, <<37, 65, 67>>,                   \* %E2 %82 %AC
+             <<37, 70, 48>>, <<37, 57, 70>>, <<37, 57, 56>>, <<37, 56, 48>>,   \* %F0 %9F %98 %80
+             <<97>>, <<43>>, <<37, 52>>, <<233>> }                             \* a + %4 e-acute
+TokInputs(n) == {Concat(ts) : ts \in SeqsUpTo(TokPool, n)}
+TokInputs4 == TokInputs(4)
+TokInputs3 == TokInputs(3)
+TokInputs2 == TokInputs(2)
+(* quick: <= 3 tokens of the pool, and every 4-token sequence over the 4-octet character's escapes and 'a' *)
+TokPool4   == { <<37, 70, 48>>, <<37, 57, 70>>, <<37, 57, 56>>, <<37, 56, 48>>, <<97>> }
+TokInputsQ == TokInputs3 \cup {Concat(ts) : ts \in [1..4 -> TokPool4]}
+TokFnsQ == {"decode", "encode_value_check_escaped"}
+TokFnsT == {"decode", "encode_value", "encode_value_check_escaped"}
+(* wrong-design switch (MC_UriTokBad.cfg: U8Complete <- AnySplit): "decode piece by piece at any split that
+   does not cut an escape and put the texts together" must be caught by DecodeChunkLaw *)
+AnySplit(b) == TRUE
+
 (* wrong-design switch for the vacuity run (MC_UriBad.cfg: HexUp <- LowHexDigit): an encoder that
    writes lower-case escapes must be caught by EncodeOutputAlphabet *)
 LowHexDigit(n) == IF n < 10 THEN 48 + n ELSE 87 + n
